@@ -5,6 +5,7 @@ import (
 	"go/token"
 	"go/types"
 	"sort"
+	"strconv"
 	"strings"
 
 	"golang.org/x/tools/go/ssa"
@@ -61,6 +62,11 @@ type NondetVal struct {
 	Value uint64 `json:"value"`
 }
 
+type pendingPath struct {
+	prefix []int
+	wit    witness
+}
+
 type nondetRec struct {
 	name string
 	kind string
@@ -68,15 +74,17 @@ type nondetRec struct {
 }
 
 type Stats struct {
-	Steps      int64
-	Allocs     int
-	Branches   int
-	Paths      int
-	Funcs      map[string]bool
-	ModelsHit  map[string]int
-	Unknowns   int
-	Concretize int
-	Checks     int
+	Steps       int64
+	Allocs      int
+	Branches    int
+	Paths       int
+	Funcs       map[string]bool
+	ModelsHit   map[string]int
+	Unknowns    int
+	Concretize  int
+	Checks      int
+	WitnessHits int
+	MemoHits    int
 }
 
 type Machine struct {
@@ -91,7 +99,7 @@ type Machine struct {
 	prefix   []int
 	cursor   int
 	trace    []int
-	pending  [][]int
+	pending  []pendingPath
 	nvars    int
 	nondets  []nondetRec
 	observed []string
@@ -125,6 +133,10 @@ type Machine struct {
 	fixed       []NondetVal // concrete mode: recorded nondet values
 	fixedPos    int
 	fixedSeed   uint64
+	witnesses   []witness
+	lastModel   witness
+	varMemo     map[int][]int
+	qmemo       map[string]Result
 	lastPanic   string
 }
 
@@ -168,6 +180,21 @@ func (m *Machine) assert(t *Term) {
 	}
 	m.pc = append(m.pc, t)
 	m.learn(t)
+	// keep only witnesses that still satisfy the path condition
+	kept := m.witnesses[:0:0]
+	for _, w := range m.witnesses {
+		if m.evalUnder(t, w) {
+			kept = append(kept, w)
+		}
+	}
+	if m.lastModel != nil && m.evalUnder(t, m.lastModel) {
+		kept = append(kept, m.lastModel)
+	}
+	m.lastModel = nil
+	if len(kept) > 6 {
+		kept = kept[len(kept)-6:]
+	}
+	m.witnesses = kept
 }
 
 // learn records equalities term==const for later substitution.
@@ -194,6 +221,101 @@ func (m *Machine) learn(t *Term) {
 	}
 }
 
+// varsOf returns the (memoised) sorted variable-term IDs below t.
+func (m *Machine) varsOf(t *Term) []int {
+	if v, ok := m.varMemo[t.ID]; ok {
+		return v
+	}
+	var out []int
+	switch t.Op {
+	case OpConst:
+	case OpVar:
+		out = []int{t.ID}
+	default:
+		set := map[int]bool{}
+		for _, a := range t.Args {
+			for _, v := range m.varsOf(a) {
+				set[v] = true
+			}
+		}
+		out = make([]int, 0, len(set))
+		for v := range set {
+			out = append(out, v)
+		}
+		sort.Ints(out)
+	}
+	m.varMemo[t.ID] = out
+	return out
+}
+
+// slice returns the constraints of the path condition that share variables (transitively) with extra.
+func (m *Machine) slice(extra *Term) []*Term {
+	need := map[int]bool{}
+	for _, v := range m.varsOf(extra) {
+		need[v] = true
+	}
+	used := make([]bool, len(m.pc))
+	var out []*Term
+	for changed := true; changed; {
+		changed = false
+		for i, c := range m.pc {
+			if used[i] {
+				continue
+			}
+			hit := false
+			vs := m.varsOf(c)
+			for _, v := range vs {
+				if need[v] {
+					hit = true
+					break
+				}
+			}
+			if hit {
+				used[i] = true
+				changed = true
+				out = append(out, c)
+				for _, v := range vs {
+					need[v] = true
+				}
+			}
+		}
+	}
+	return out
+}
+
+type witness map[string]uint64
+
+// fullModel asks the solver for values of every variable of pc ∧ extra.
+func (m *Machine) fullModel(extra *Term) witness {
+	q := append(append([]*Term(nil), m.pc...), extra)
+	var vars []*Term
+	seen := map[int]bool{}
+	for _, c := range q {
+		for _, v := range m.varsOf(c) {
+			if !seen[v] {
+				seen[v] = true
+				vars = append(vars, m.ctx.terms[v])
+			}
+		}
+	}
+	if len(vars) > 256 {
+		return nil
+	}
+	r, vals := m.solver.Check(q, vars)
+	if r != Sat {
+		return nil
+	}
+	w := witness{}
+	for i, v := range vars {
+		w[v.Name] = vals[i]
+	}
+	return w
+}
+
+func (m *Machine) evalUnder(t *Term, w witness) bool {
+	return m.ctx.Eval(t, w, map[int]uint64{}) != 0
+}
+
 func (m *Machine) feasible(extra *Term) Result {
 	if extra.IsConst() {
 		if extra.Val == 0 {
@@ -201,11 +323,79 @@ func (m *Machine) feasible(extra *Term) Result {
 		}
 		return Sat
 	}
-	q := append(append([]*Term(nil), m.pc...), extra)
-	r, _ := m.solver.Check(q, nil)
+	// 1. a known witness of the path condition that also satisfies extra
+	for _, w := range m.witnesses {
+		if m.evalUnder(extra, w) {
+			m.stats.WitnessHits++
+			return Sat
+		}
+	}
+	// 2. solver on the relevant slice, memoised
+	rel := m.slice(extra)
+	ids := make([]int, 0, len(rel)+1)
+	for _, c := range rel {
+		ids = append(ids, c.ID)
+	}
+	sort.Ints(ids)
+	var kb strings.Builder
+	for _, id := range ids {
+		kb.WriteString(strconv.Itoa(id))
+		kb.WriteByte(',')
+	}
+	kb.WriteString("|")
+	kb.WriteString(strconv.Itoa(extra.ID))
+	key := kb.String()
+	if r, ok := m.qmemo[key]; ok {
+		m.stats.MemoHits++
+		return r
+	}
+	q := append(append([]*Term(nil), rel...), extra)
+	// ask for a model of the sliced variables so the answer can be reused as a witness
+	var vars []*Term
+	seen := map[int]bool{}
+	for _, c := range q {
+		for _, v := range m.varsOf(c) {
+			if !seen[v] {
+				seen[v] = true
+				vars = append(vars, m.ctx.terms[v])
+			}
+		}
+	}
+	if len(vars) > 64 {
+		vars = nil
+	}
+	r, vals := m.solver.Check(q, vars)
 	if r == Unknown {
 		m.stats.Unknowns++
 		m.notes = append(m.notes, "solver unknown at "+m.site())
+	} else {
+		m.qmemo[key] = r
+	}
+	if r == Sat && vars != nil {
+		// extend a witness of the path condition with the model of the slice:
+		// variables outside the slice are independent of it
+		w := witness{}
+		if len(m.witnesses) > 0 {
+			for k, v := range m.witnesses[len(m.witnesses)-1] {
+				w[k] = v
+			}
+		}
+		for i, v := range vars {
+			w[v.Name] = vals[i]
+		}
+		ok := true
+		for _, c := range m.pc {
+			if !m.evalUnder(c, w) {
+				ok = false
+				break
+			}
+		}
+		if ok && m.evalUnder(extra, w) {
+			m.lastModel = w
+		} else if len(m.pc) < 400 {
+			// no reusable witness: one full query for a complete model of the path condition
+			m.lastModel = m.fullModel(extra)
+		}
 	}
 	return r
 }
@@ -227,6 +417,7 @@ func (m *Machine) decide(alts []*Term) int {
 	}
 	m.stats.Branches++
 	var feas []int
+	models := make([]witness, len(alts))
 	for i, a := range alts {
 		if a == nil {
 			feas = append(feas, i)
@@ -237,8 +428,18 @@ func (m *Machine) decide(alts []*Term) int {
 			feas = append(feas, i)
 			continue
 		}
+		m.lastModel = nil
 		if r := m.feasible(a); r != Unsat {
 			feas = append(feas, i)
+			models[i] = m.lastModel
+			if models[i] == nil {
+				for _, w := range m.witnesses {
+					if m.evalUnder(a, w) {
+						models[i] = w
+						break
+					}
+				}
+			}
 		}
 	}
 	if len(feas) == 0 {
@@ -246,12 +447,13 @@ func (m *Machine) decide(alts []*Term) int {
 	}
 	for _, i := range feas[1:] {
 		p := append(append([]int(nil), m.trace...), i)
-		m.pending = append(m.pending, p)
+		m.pending = append(m.pending, pendingPath{p, models[i]})
 	}
 	d := feas[0]
 	m.cursor++
 	m.prefix = append(m.prefix, d)
 	m.trace = append(m.trace, d)
+	m.lastModel = models[d]
 	if alts[d] != nil {
 		m.assert(alts[d])
 	}
@@ -319,7 +521,7 @@ func (m *Machine) concretize(t *Term, what string) uint64 {
 	sort.Slice(vals, func(i, j int) bool { return vals[i] < vals[j] })
 	for _, v := range vals[1:] {
 		p := append(append([]int(nil), m.trace...), int(v))
-		m.pending = append(m.pending, p)
+		m.pending = append(m.pending, pendingPath{p, nil})
 	}
 	v := vals[0]
 	m.cursor++
